@@ -149,6 +149,9 @@ def catalogue():
     @dev("pu_speed", "p1kind")
     def _(wn):
         _repl(wn, "p1"); wn.add_curve("hc1", "HEAD", [(0.05, 30.0)]); wn.add_pump("p1", "R1", "J1", "HEAD", "hc1", speed=1.2)
+    @dev("pu_head3_unsorted", "p1kind")     # the three curve points given design point first (a curve keeps the order it was given)
+    def _(wn):
+        _repl(wn, "p1"); wn.add_curve("hc1", "HEAD", [(0.05, 30.0), (0.0, 40.0), (0.1, 10.0)]); wn.add_pump("p1", "R1", "J1", "HEAD", "hc1")
     @dev("pu_speed_low", "p1kind")
     def _(wn):
         _repl(wn, "p1"); wn.add_pump("p1", "R1", "J1", "POWER", 15000.0, speed=0.8)
